@@ -120,6 +120,11 @@ struct iauth_xquery_client {
     /** Bitmask of services that sent OK responses to this client. */
     uint32_t ok_mask;
 
+    /** Value of #iauth_xquery_epoch when the masks were last checked
+     * against #iauth_xquery_slot_epoch.
+     */
+    unsigned int epoch;
+
     /** Account name concatenated with password; empty if unknown.
      *
      * This is the value passed by the client in its *first* PASSWORD
@@ -193,6 +198,15 @@ static struct log_type *iauth_xquery_log;
 static struct iauth_xquery_services iauth_xquery_services;
 static struct iauth_flagset iauth_xquery_flags[4];
 
+/** Number of times a service slot has been released. */
+static unsigned int iauth_xquery_epoch;
+
+/** Value of #iauth_xquery_epoch when each slot was last released.
+ * The bits a client holds for a slot describe the service that was in
+ * the slot at the time; they mean nothing once the slot is released.
+ */
+static unsigned int iauth_xquery_slot_epoch[IAUTH_XQUERY_MAX_SERVICES];
+
 static struct {
     unsigned long n_cli_allocs;
     unsigned long n_srv_allocs;
@@ -258,8 +272,37 @@ static void iauth_xquery_unref(unsigned int ii)
 
     /* If not, free it. */
     iauth_xquery_services.vec[ii] = NULL;
+    iauth_xquery_slot_epoch[ii] = ++iauth_xquery_epoch;
     xfree(srv);
     stats.n_srv_frees++;
+}
+
+/** Look up our state structure for \a req.
+ *
+ * Bits for slots that were released since we last looked are cleared,
+ * so that a service which later takes such a slot does not inherit
+ * what its predecessor sent to or heard about the client.
+ */
+static struct iauth_xquery_client *iauth_xquery_find_client(struct iauth_request *req)
+{
+    struct iauth_xquery_client *cli;
+    void *ptr;
+    unsigned int ii;
+
+    ptr = &iauth_xquery;
+    cli = set_find(&req->data, &ptr);
+    if (!cli || (cli->epoch == iauth_xquery_epoch))
+        return cli;
+
+    for (ii = 0; ii < IAUTH_XQUERY_MAX_SERVICES; ++ii) {
+        if ((int)(iauth_xquery_slot_epoch[ii] - cli->epoch) > 0) {
+            cli->sent_mask &= ~(1u << ii);
+            cli->more_mask &= ~(1u << ii);
+            cli->ok_mask &= ~(1u << ii);
+        }
+    }
+    cli->epoch = iauth_xquery_epoch;
+    return cli;
 }
 
 static void iauth_xquery_set_account(struct iauth_request *req,
@@ -279,15 +322,13 @@ static void iauth_xquery_x_reply(const char service[], const char routing[],
     struct iauth_xquery_client *cli;
     struct iauth_xquery_service *srv = NULL;
     struct iauth_request *req;
-    void *ptr;
     unsigned int ii;
 
     /* Find the client. */
     req = iauth_validate_request(routing);
     if (!req)
         return;
-    ptr = &iauth_xquery;
-    cli = set_find(&req->data, &ptr);
+    cli = iauth_xquery_find_client(req);
     if (!cli)
         return;
 
@@ -380,6 +421,7 @@ static void iauth_xquery_new_client(struct iauth_request *req)
     node = set_node_alloc(sizeof(*cli));
     cli = set_node_data(node);
     cli->key = &iauth_xquery;
+    cli->epoch = iauth_xquery_epoch;
     set_insert(&req->data, node);
 }
 
@@ -389,14 +431,12 @@ static void iauth_xquery_check(struct iauth_request *req,
     struct iauth_xquery_client *cli;
     struct iauth_xquery_service *srv;
     const char *hostname;
-    void *ptr;
     unsigned int ii;
     char routing[ROUTINGLEN];
     char username[USERLEN+2];
 
     /* Find the client's state struct. */
-    ptr = &iauth_xquery;
-    cli = set_find(&req->data, &ptr);
+    cli = iauth_xquery_find_client(req);
     if (!cli)
         return;
 
@@ -538,12 +578,10 @@ static void iauth_xquery_password(struct iauth_request *req,
                                   const char password[])
 {
     struct iauth_xquery_client *cli;
-    void *ptr;
     unsigned int ii;
 
     /* Look up our state structure for the client. */
-    ptr = &iauth_xquery;
-    cli = set_find(&req->data, &ptr);
+    cli = iauth_xquery_find_client(req);
     if (!cli)
         return;
 
@@ -751,11 +789,9 @@ int iauth_xreply_ok(struct iauth_request *request, const char *service)
 {
     struct iauth_xquery_service *srv;
     struct iauth_xquery_client *cli;
-    void *ptr;
     unsigned int ii;
 
-    ptr = &iauth_xquery;
-    cli = set_find(&request->data, &ptr);
+    cli = iauth_xquery_find_client(request);
     if (!cli)
         return -1;
 
